@@ -12,7 +12,7 @@ Three modelling remarks (every other statement is transcribed one to one):
 * A Python `dict` built as `{key(c): c for c in t}` is modelled extensionally: `dictGet` returns
   the LAST cell with the key (later assignments overwrite), and the key set
   `set(d1.keys()) | set(d2.keys())` — whose iteration order is unspecified in Python — is the
-  duplicate-free list `dedup (keys1 ++ keys2)` (some fixed order; consumers may not depend on it).
+  duplicate-free list `dedupJ (keys1 ++ keys2)` (some fixed order; consumers may not depend on it).
 * Key equality is Python's `==` on `(Metadata, date, …)` tuples. Metadata arrive canonicalised
   (details sorted by key, bool/int/float folded into `num`), for which `Metadata.__eq__` is
   structural equality (`Metadata.eqv`, Lemmas/Order); filtering details keeps them canonical.
@@ -64,7 +64,7 @@ def joinKey (inc : Bool) (c : Cell) : Coord :=
   ⟨c.md, c.ps, c.pe, c.ev, if inc then c.prev else none⟩
 
 /-- duplicate-free list with the same members (stands for a Python `set`) -/
-def dedup {α} [BEq α] (l : List α) : List α :=
+def dedupJ {α} [BEq α] (l : List α) : List α :=
   l.foldr (fun a acc => if acc.contains a then acc else a :: acc) []
 
 /-- `{key(c): c for c in t}.get(k)`: the last cell with key `k` -/
@@ -80,7 +80,7 @@ abbrev CellPair := Option Cell × Option Cell
 /-- `all_coordinates` -/
 def allCoordinates (a b : List Cell) : List Coord :=
   let inc := isIncremental a
-  dedup (a.map (joinKey inc) ++ b.map (joinKey inc))
+  dedupJ (a.map (joinKey inc) ++ b.map (joinKey inc))
 
 /-- `cell_pairs` -/
 def cellPairs (a b : List Cell) : List CellPair :=
